@@ -321,19 +321,20 @@ Fixpoint zmin_list (l : list Z) (d : Z) : Z :=
 
 (* TryPreemption: the admissible outcomes (one per node whose successful predicate result has the
    minimal score; which of them wins depends on the order in which the goroutines answer) *)
+Definition tryPreemptionPV (fixed : bool) (w : world) (pv : pvs) : list outcome :=
+  if negb (checkGuarantees w pv) then [failed] else
+  let cs := filter (fun c => fst (answer w c)) (node_checks w pv) in
+  match cs with
+  | [] => [failed]
+  | _ =>
+      let sc := fun c => solutionScore pv c (snd (answer w c)) in
+      let m := zmin_list (map sc cs) scoreUnfit in
+      map (tryWith fixed w pv) (filter (fun c => sc c =? m) cs)
+  end.
 Definition tryPreemptionF (fixed : bool) (w : world) : list outcome :=
   match findVictims w with
   | None => [failed]
-  | Some pv =>
-      if negb (checkGuarantees w pv) then [failed] else
-      let cs := filter (fun c => fst (answer w c)) (node_checks w pv) in
-      match cs with
-      | [] => [failed]
-      | _ =>
-          let sc := fun c => solutionScore pv c (snd (answer w c)) in
-          let m := zmin_list (map sc cs) scoreUnfit in
-          map (tryWith fixed w pv) (filter (fun c => sc c =? m) cs)
-      end
+  | Some pv => tryPreemptionPV fixed w pv
   end.
 Definition tryPreemption := tryPreemptionF true.
 
